@@ -37,4 +37,4 @@ def run(tier):
     progs = gen.c12_scope(tier)
     return run_e2e_property("C12", tier, EXPLANATION, "DESIGN §4 C12",
                             [("e2e-interleavings", progs, "7 pairs of independent computations x order-preserving interleavings")],
-                            contract_modules=["contracts.c08", "contracts.c13", "contracts.c10", "contracts.c12", "contracts.c07b", "contracts.c01b"], extra=_colour_box)
+                            contract_modules=["contracts.c08", "contracts.c13", "contracts.c10", "contracts.c12", "contracts.c07b", "contracts.c01b", "contracts.c02"], extra=_colour_box)
